@@ -18,10 +18,12 @@ import contextlib
 import enum
 import json
 import os
+import queue
 import re
 import shutil
 import sys
 import tempfile
+import threading
 
 from hypothesis import strategies as st
 
@@ -47,7 +49,10 @@ RULE = ('Hypothesis op lists: history of 1-14 ops (parse_config of 1-4 generated
         'classes under '
         '3 module names, outside/inside interactive_mode(); parse_config_file of real temp files '
         '(2 paths, optionally including one of 2 other files, optional failing statement in the '
-        'file and/or in the included file); queries; config-string reads), then clear_config for '
+        'file and/or in the included file); queries; config-string reads; registration of finalize '
+        'hooks that contribute a probe binding when it is not bound; singleton use / call / parse '
+        'executed on one long-lived worker thread), then clear_config (on the main or on the '
+        'worker thread) for '
         'clear_constants in {False,True}, spelled clear_config(clear_constants=b) / clear_config(b) '
         '/ clear_config() and called inside 0-2 nested config_scope blocks (the observation runs '
         'inside them too, the fresh side enters the same blocks; afterwards the blocks are left and '
@@ -69,8 +74,12 @@ ASSUMPTIONS = [
     'gin.REQUIRED re-defined inside interactive_mode() is an ordinary surviving constant under '
     'clear_constants=False (the fresh side defines it with the same value); under '
     'clear_constants=True the fresh side has the sentinel, as the property says',
-    'finalize hooks, custom file readers, search paths, dynamic registration and a dangling '
+    'custom file readers, search paths, dynamic registration and a dangling '
     'enter_interactive_mode() are not part of histories: clear_config does not claim to reset them',
+    'finalize hooks registered by the program are registrations ("with the same registrations"): '
+    'they must survive the clear, and the fresh side registers the same hooks in the same order',
+    'the worker thread is a different thread identity only: its ops run one at a time while the '
+    'main thread waits (no interleaving is claimed or explored here; that is C18)',
     'config files are real files under one temp directory used by both sides (absolute paths, the '
     'default reader); every file op writes all files it reads, and the directory is emptied '
     'before the fresh side runs',
@@ -96,7 +105,8 @@ FLOORS = {'nontrivial': (0.15, _S), 'pre:locked': (0.1, _S), 'pre:singleton-cach
           'survivors-kept>=1': (0.1, _S), 'obs:final-operative-readable': (0.6, _S),
           'clear:inside-0-scopes': (0.3, _S), 'clear:inside-1-scopes': (0.1, _S),
           'clear:inside-2-scopes': (0.1, _S), 'clear:call-pos': (0.12, _S), 'clear:call-kw': (0.12, _S),
-          'clear:call-default': (0.12, _S), 'hist:const-gin-namespace': (0.05, _S),
+          'clear:call-default': (0.12, _S), 'clear:on-worker-thread': (0.15, _S),
+          'hist:hook-registered': (0.08, _S), 'hist:in-worker-singleton': (0.08, _S), 'hist:const-gin-namespace': (0.05, _S),
           'hist:const-value-is-REQUIRED-sentinel': (0.03, _S),
           'hist:flaky-in-operative-record-then-broken': (0.02, _S), 'hist:enum-ok': (0.08, _S), 'hist:pfile-failed': (0.08, _S), 'hist:pfile-ok': (0.05, _S),
           'hist:pfile-failed-with-faulty-include': (0.02, _S)}
@@ -230,6 +240,60 @@ class Flaky:
     if BROKEN[0]:
       raise ConnectionError('client is closed')
     return '<Flaky>'
+
+
+class Worker:
+  """One long-lived worker thread (a thread fed through a queue): ops marked 'worker' run there,
+  one at a time, while the caller waits - no interleaving, only a different thread identity."""
+
+  def __init__(self):
+    self.q = queue.Queue()
+    self.thread = threading.Thread(target=self.loop, daemon=True)
+    self.thread.start()
+
+  def loop(self):
+    while True:
+      fn, box, done = self.q.get()
+      try:
+        box.append(('ok', fn()))
+      except BaseException as e:  # pylint: disable=broad-except
+        box.append(('exc', e))
+      done.set()
+
+  def do(self, fn):
+    box, done = [], threading.Event()
+    self.q.put((fn, box, done))
+    if not done.wait(30):
+      raise RuntimeError('worker thread did not answer')
+    kind, value = box[0]
+    if kind == 'exc':
+      raise value
+    return value
+
+
+WORKER = [None]     # created after the fork, in the process that needs it; lives until it exits
+
+
+def worker():
+  if WORKER[0] is None:
+    WORKER[0] = Worker()
+  return WORKER[0]
+
+
+def make_hook(desc):
+  """A program-registered finalize hook: contributes <scope>/<probe>.<param> = 50+n unless the
+  configuration it is shown already binds that parameter.  A registration, not configuration."""
+  sc, fn, pa, n = desc
+  scope = SCOPES[sc % len(SCOPES)]
+  name = FNS[fn % len(FNS)]
+  param = PARAMS[pa % len(PARAMS)]
+  key = scoped(scope, name) + '.' + param
+
+  def hook(config):
+    if param in config.get((scope, name), {}):
+      return None
+    return {key: 50 + n % 10}
+  return hook
 
 
 def survivor_value(v):
@@ -402,6 +466,7 @@ class Machine:
     self.n_failed = 0
     self.failed_mains = set()
     self.flaky_called = False
+    self.hooks = []           # descriptors of the finalize hooks registered, in order
 
   def attempt(self, fn):
     try:
@@ -457,6 +522,22 @@ class Machine:
       val = mkval(vi)
       self.labels.add('hist:bind')
       return self.attempt(lambda: gin.bind_parameter(key, val))
+    if k == 'worker':
+      # the wrapped op runs on the long-lived worker thread (sequentially; the result comes back)
+      inner = op[1]
+      while inner[0] == 'worker':
+        inner = inner[1]
+      self.labels.add('hist:in-worker')
+      if inner[0] in ('use_singleton', 'single_api'):
+        self.labels.add('hist:in-worker-singleton')
+      return worker().do(lambda: self.run(inner))
+    if k == 'hook':
+      desc = list(op[1:5])
+      out = self.attempt(lambda: (gin.config.register_finalize_hook(make_hook(desc)), None)[1])
+      if out[0] == 'ok':
+        self.hooks.append(desc)
+        self.labels.add('hist:hook-registered')
+      return out
     if k == 'flaky':
       # programmatic binding of a Flaky object, then the call that puts it in the operative record
       # mode 0: bind only; 1: bind + call; 2: bind + call, and the repr breaks right afterwards
@@ -685,12 +766,15 @@ def snapshot(desc, tag, probing):
     rec('query ' + key + '/gin.singleton.constructor',
         lambda: gin.query_parameter(key + '/gin.singleton.constructor'))
     rec('singleton_value ' + key, lambda: gin.config.singleton_value(key))
+    rec('worker: singleton_value ' + key,
+        lambda: worker().do(lambda: gin.config.singleton_value(key)))
   for name in LOOKUPS:
     rec('query-constant ' + name, lambda: gin.query_parameter(name))
   rec('REQUIRED-identity', lambda: gin.query_parameter('gin.REQUIRED') is gin.REQUIRED)
   if probing:
     # These change the configuration (identically on both sides).
     rec('call req', _req)
+    rec('worker: call c20m.g', lambda: worker().do(W_G))
     for scope in SCOPES:
       for name in FNS:
         def call():
@@ -774,6 +858,13 @@ def observe(case, seeded, first=None):
         return W_F()
     rec('call ' + scoped(scope, 'c20m.f'), call)
   rec('operative_config_str', lambda: ADDR.sub('0x', gin.operative_config_str()))
+  # Last: finalize (built-in and program-registered hooks run; may fail or be locked already,
+  # identically on both sides) and what the hooks contributed.
+  rec('finalize', gin.finalize)
+  rec('config_is_locked', gin.config_is_locked)
+  rec('config_str', lambda: ADDR.sub('0x', gin.config_str()))
+  rec('call c20m.f', W_F)
+  rec('worker: call s/c20m.f', lambda: worker().do(call))
   return out, m
 
 
@@ -820,7 +911,10 @@ def history_side(case):
 
   def do_clear():
     try:
-      res = call_clear(case)
+      if case.get('clear_thread') == 'worker':
+        res = worker().do(lambda: call_clear(case))
+      else:
+        res = call_clear(case)
       if res is not None:
         cleared['exc'] = 'returned %r' % (res,)
     except Exception as e:  # pylint: disable=broad-except
@@ -832,6 +926,11 @@ def history_side(case):
   clear_exc = cleared['exc']
   labels.add('clear:inside-%d-scopes' % len(clear_scopes(case)))
   labels.add('clear:call-' + (case.get('clear_call') or 'kw'))
+  labels.add('clear:on-' + (case.get('clear_thread') or 'main') + '-thread')
+  if 'hist:in-worker-singleton' in m.labels and case.get('clear_thread') != 'worker':
+    labels.add('worker:singleton-in-worker-cleared-from-main')
+  if m.hooks and any(op[0] == 'finalize' for op in case['follow']):
+    labels.add('hook:registered-then-finalize-after-clear')
   labels.update(l.replace('hist:', 'follow:') for l in fm.labels)
   if 'hist:enum-ok' in m.labels and any(op[0] == 'enum' for op in case['follow']):
     labels.add('enum:generated-before-and-after-clear')
@@ -841,12 +940,15 @@ def history_side(case):
   labels.add('obs:final-operative-readable' if z_oper and z_oper[-1][0] == 'ok'
              else 'obs:final-operative-unreadable')
   nontrivial = bool(m.n_calls) and bool(m.n_failed or 'hist:finalize' in m.labels) and bool(m.order)
-  return ok(sorted(labels), nontrivial, survivors=survivors, clear_exc=clear_exc, obs=obs)
+  return ok(sorted(labels), nontrivial, survivors=survivors, clear_exc=clear_exc, obs=obs,
+            hooks=m.hooks)
 
 
-def reference_side(case, survivors):
+def reference_side(case, survivors, hooks=()):
   """Runs in the forked child itself, which is still pristine."""
   EPOCH[0] = 'obs'
+  for desc in hooks:            # "the same registrations": configurables and finalize hooks
+    gin.config.register_finalize_hook(make_hook(desc))
   seeded = []
   if not case['clear_constants'] and survivors:
     with gin.config.interactive_mode():
@@ -887,7 +989,7 @@ def check_case(case):
     info = got['info']
     shutil.rmtree(TMP[0], ignore_errors=True)  # the fresh process starts without those files
     os.makedirs(TMP[0])
-    ref = json.loads(json.dumps(reference_side(case, info['survivors'])))
+    ref = json.loads(json.dumps(reference_side(case, info['survivors'], info.get('hooks') or ())))
   finally:
     shutil.rmtree(TMP[0], ignore_errors=True)
   obs = info['obs']
@@ -971,6 +1073,14 @@ def _op():
       st.tuples(st.just('const'), _i, _i, _b),
       st.tuples(st.just('const_block'), st.lists(st.tuples(_i, _i).map(list), min_size=1, max_size=3)),
       st.tuples(st.just('enum'), _i, _i, _b),
+      st.tuples(st.just('hook'), _i, _i, _i, _i),
+      st.tuples(st.just('worker'), st.one_of(
+          st.tuples(st.just('use_singleton'), _i, _i, _i, _i, _i),
+          st.tuples(st.just('use_singleton'), _i, _i, _i, _i, _i),
+          st.tuples(st.just('single_api'), _i, _b),
+          st.tuples(st.just('call'), _i, _i),
+          st.tuples(st.just('parse'), st.lists(_stmt(), min_size=1, max_size=2), st.none(),
+                    st.just(False))).map(list)),
       st.tuples(st.just('flaky'), _i, _i, _i, st.sampled_from([1, 1, 2, 2, 0])),
       st.tuples(st.just('break_repr')),
       st.tuples(st.just('pfile'), _i, st.lists(_stmt(), min_size=1, max_size=3), pfault,
@@ -990,6 +1100,7 @@ def strategy():
       'clear_constants': _b,
       'clear_scope': st.just([]) | st.lists(st.integers(0, 2), min_size=1, max_size=2),
       'clear_call': st.sampled_from(CLEAR_CALLS),
+      'clear_thread': st.sampled_from(['main', 'main', 'worker']),
       'follow': st.lists(_op(), min_size=0, max_size=8),
   })
 
